@@ -644,6 +644,17 @@ class ShiftInterp:
             if name == "numpy.where" and len(args) == 3 and args[0].is_inv and args[1].kind == args[2].kind and args[1].k == args[2].k:
                 return ST(args[1].kind, args[1].k, None)
             return self._conflict(f"{name.split('.')[-1]} mixes {', '.join(repr(t) for t in args)} (an absolute bound applied to an offset-dependent value)", e)
+        if name in ("numpy.isclose", "numpy.allclose", "math.isclose") and len(args) >= 2:
+            a, b = args[0], args[1]
+            if a.kind == "shift" and b.kind == "shift" and (a.k or b.k):
+                rt = next((k.value for k in e.keywords if k.arg in ("rtol", "rel_tol")), e.args[2] if len(e.args) > 2 else None)
+                rt_zero = isinstance(rt, ast.Constant) and rt.value in (0, 0.0)
+                if a.k != b.k:
+                    return self._conflict(f"closeness test between {a!r} and {b!r}", e)
+                if not rt_zero:
+                    return self._conflict(f"closeness test with a relative tolerance between two values of type {a!r}: the allowed difference is rtol * |value| and grows with the "
+                                          f"offset added to the log-likelihood", e)
+                return inv()
         if name.startswith("numpy.random."):
             return inv()
         if any(t.kind == "shift" and t.k or t.kind == "scale" for t in args + list(kws.values())):
